@@ -118,8 +118,30 @@ def checkHandlersOrder (j : Json) : Except String Verdict := do
           | none => none
   return { nontrivial := true, mismatch := none, specfail := sf }
 
+/-- a lookup with an arbitrary kind number: accepted iff the kind has a type URL (model `kindAccepted` over the regenerated
+`knownKinds`); a rejected kind returns its error at once and leaves nothing behind -/
+def checkKind (j : Json) : Except String Verdict := do
+  let k := match j.getObjVal? "kind" with | .ok v => (v.getInt?.toOption.getD 0) | _ => 0
+  let obs ← j.getObjVal? "obs"
+  let res := jStrD obs "result" "?"
+  let el := jNatD obs "elapsedMs" 0
+  let accepted := kindAccepted Generated.knownKinds k
+  let left := jBoolD obs "interestChanged" false || jNatD obs "requests" 0 > 0 || jNatD obs "waiters" 0 > 0
+  if accepted then
+    -- a resource kind: the lookup subscribes and (nothing is delivered here) ends at its fetch timeout
+    let mm := if res = "err:invalid-kind" then some s!"kind {k}: model accepts it, impl rejects it" else none
+    return { nontrivial := true, mismatch := mm, specfail := none }
+  let mm := if res != "err:invalid-kind" then some s!"kind {k}: model rejects it at the first statement, impl returned {res}" else none
+  let sf :=
+    if res.startsWith "panic" then some s!"C05.never_panics: a lookup with kind {k} panicked: {res}"
+    else if left then some s!"C05.unknown_kind_rejected: a lookup with kind {k} (not a resource kind) was not rejected without subscribing: interest set changed={jBoolD obs "interestChanged" false}, requests sent={jNatD obs "requests" 0}, waiters left={jNatD obs "waiters" 0}; it returned {res} after {el} ms"
+    else if res != "err:invalid-kind" || el > 150 then some s!"C05.unknown_kind_rejected: a lookup with kind {k} (not a resource kind) returned {res} after {el} ms instead of being rejected immediately"
+    else none
+  return { nontrivial := true, mismatch := mm, specfail := sf }
+
 def check (pid : String) (j : Json) : Except String Verdict := do
   if jStrD j "op" "" = "deadline" then return ← checkDeadline j
+  if jStrD j "op" "" = "kind" then return ← checkKind j
   if jStrD j "op" "" = "handlers-order" then return ← checkHandlersOrder j
   let sc ← j.getObjVal? "scenario"
   let names ← jStrList sc "names"
